@@ -9,5 +9,5 @@ Set Extraction KeepSingleton.
 
 Extraction "model.ml"
   run_parse run_build run_build_chunk run_build_item m_calc chunk_calc item_calc
-  spec_build2 spec_parse2 run_hist chunk_of_hist final_config
+  spec_build2 spec_parse2 spec_chunk spec_item run_hist chunk_of_hist final_config
   N.of_nat N.to_nat N.add N.mul.
